@@ -14,7 +14,7 @@ HC == {"A", "B", "H", "P"}
 CC == {"A", "B", "P"}
 TT == {"A", "B"}
 Reqs == {r \in Requests(N, HC, CC, TT) :
-            r.op = "ValidateHolder" /\ r.sig = "badhtlc" => r.c = "H"}
+            r.op = "ValidateHolder" /\ r.sig \in {"badhtlc", "shorthtlc"} => r.c = "H"}
 
 Init == /\ s = IF StartPhase = "stub" THEN InitStub ELSE InitReady
         /\ g = InitGhost
